@@ -201,6 +201,9 @@ def run(ctx):
     # the reproducer of F29 (irregular interleaving) and its regular counterpart, in every run
     xml_files(ctx, {"s0.xml": "<Root><b>-7</b><c>1</c><d>a b</d><b>1</b><b>-7</b><c>1</c><d>a b</d></Root>"})
     xml_files(ctx, {"s0.xml": "<Root><h>1</h><b>-7</b><c>1</c><d>a b</d><b>1</b><c>2</c><d>t</d><z>9</z></Root>"})
+    # TWO disjoint repeating groups in one element (regular rounds), a single element between them; and three groups
+    xml_files(ctx, {"s0.xml": "<Root><sku>a</sku><qty>1</qty><sku>b</sku><qty>2</qty><note>n</note><code>c</code><amount>1.5</amount><code>d</code><amount>2.5</amount></Root>"})
+    xml_files(ctx, {"s0.xml": "<Root><a>1</a><b>x</b><a>2</a><b>y</b><c>t</c><d>1</d><c>u</c><d>2</d><e>p</e><f>q</f><e>r</e><f>s</f><e>v</e><f>w</f></Root>"})
     namespace_mixes(ctx)
     mixed_samples(ctx)
     cg.cleanup_all()
